@@ -2,7 +2,7 @@ CONSTANTS
   Clients = {1, 2}
   Topics = {1, 2, 3}
   Maxes = {0, 2, 3}
-  Cleanups = {TRUE, FALSE}
+  Cleanups = {TRUE}
   MaxCount = 2
 INVARIANTS TypeOK CountsAreSums LimitHolds
 PROPERTIES EventsMirror
